@@ -76,6 +76,9 @@ func (sp *FuncSpec) props() []string {
 	for _, c := range sp.Ensures {
 		add(c.Labels)
 	}
+	for _, c := range sp.Preserves {
+		add(c.Labels)
+	}
 	var out []string
 	for p := range set {
 		out = append(out, p)
@@ -208,7 +211,10 @@ func (env *Env) locsOf(e *CExpr) []Loc {
 	}
 	if e.Op == "call" {
 		if gs, ok := specs.GhostFields[e.Name]; ok {
-			p := env.force(env.eval(e.Args[0]))
+			p := env.eval(e.Args[0])
+			if !p.IsNil {
+				p = env.force(p)
+			}
 			memArrays["G$"+e.Name] = ArrSort(SRef, ghostSort(gs))
 			out = append(out, Loc{arr: "G$" + e.Name, addr: refOfVal(p)})
 			return out
@@ -325,8 +331,12 @@ func (fr *Frame) callBySpecCommon(fn *ssa.Function, sp *FuncSpec, sig *types.Sig
 	}
 	// arguments must not be package-level arrays (Inv-G) for callees that may write
 	if checkFrames && fn != nil && inScope(fn) {
+		pn := paramNames(fn, sp)
 		for i, a := range args {
 			if i < len(fn.Params) {
+				if sp.MayGlobal[pn[i]] {
+					continue
+				}
 				for _, r := range refParts(a, fn.Params[i].Type()) {
 					fr.oblG(fr.reach[fr.curBlock], "arg.global:"+name, pos, Or(Eq(r, Null), ILt(IntLit(int64(prog.NG)), Acc("rid", r))), "C20")
 				}
@@ -336,8 +346,29 @@ func (fr *Frame) callBySpecCommon(fn *ssa.Function, sp *FuncSpec, sig *types.Sig
 	wm := ex.watermark()
 	// havoc modifies
 	if sp.ModAny {
-		for n, srt := range memArrays {
-			st.set(n, Fresh(n+"$any", srt))
+		var keep []Loc
+		for _, pc := range sp.Preserves {
+			_, err := ex.safeEval(env, func() *Term { keep = append(keep, env.locsOf(pc.E)...); return True })
+			if err != "" {
+				fatal("contract error in preserves of %s: %s", name, err)
+			}
+		}
+		keep = append(keep, fr.unescapedLocals(args)...)
+		var names []string
+		for n := range memArrays {
+			names = append(names, n)
+		}
+		sort.Strings(names)
+		for _, n := range names {
+			srt := memArrays[n]
+			old := pre.get(n, srt)
+			nv := Fresh(n+"$any", srt)
+			for _, l := range keep {
+				if l.arr == n {
+					nv = Store(nv, l.addr, Select(old, l.addr))
+				}
+			}
+			st.set(n, nv)
 		}
 	}
 	for _, m := range sp.Modifies {
@@ -357,6 +388,17 @@ func (fr *Frame) callBySpecCommon(fn *ssa.Function, sp *FuncSpec, sig *types.Sig
 			}
 			st.set(l.arr, Store(arr, l.addr, Fresh(l.arr+"$h", srt.Elem)))
 		}
+	}
+	var ghostLocs []Loc
+	for _, gs := range sp.GhostSets {
+		_, err := ex.safeEval(env, func() *Term { ghostLocs = append(ghostLocs, env.locsOf(gs.Loc)[0]); return True })
+		if err != "" {
+			fatal("contract error in ghostset of %s: %s", name, err)
+		}
+	}
+	for _, l := range ghostLocs {
+		srt := memArrays[l.arr]
+		st.set(l.arr, Store(st.get(l.arr, srt), l.addr, Fresh(l.arr+"$g", srt.Elem)))
 	}
 	ex.allocN += 1 << 20 // ids the callee may have allocated
 	// results
@@ -379,6 +421,15 @@ func (fr *Frame) callBySpecCommon(fn *ssa.Function, sp *FuncSpec, sig *types.Sig
 		}
 		fr.assumeG(t)
 	}
+	for i, gs := range sp.GhostSets {
+		l := ghostLocs[i]
+		var v *Term
+		_, err := ex.safeEval(post, func() *Term { v = post.toGhostSort(post.eval(gs.Val), ghostSortOfArr(l.arr)); return True })
+		if err != "" {
+			fatal("contract error in ghostset of %s: %s", name, err)
+		}
+		fr.assumeG(Eq(Select(st.get(l.arr, memArrays[l.arr]), l.addr), v))
+	}
 	return res
 }
 
@@ -392,13 +443,14 @@ type invT struct {
 
 func (fr *Frame) loopEnv(lc *loopCtx, st *State, over map[*ssa.Phi]*Term) *Env {
 	ex := fr.ex
-	env := &Env{ex: ex, fr: fr, st: st, old: fr.entrySt, vars: map[string]CVal{}, bound: map[string]*Term{}}
+	env := &Env{ex: ex, fr: fr, st: st, old: fr.entrySt, vars: map[string]CVal{}, bound: map[string]*Term{}, wm: ex.A0}
 	if fr.fn.Pkg != nil {
 		env.pkg = fr.fn.Pkg.Pkg
 	}
 	env.assume = func(t *Term) { fr.ex.assume(Implies(fr.reach[lc.header], t)) }
 	for i, p := range fr.fn.Params {
 		env.vars[p.Name()] = CVal{T: fr.params[i], Ty: p.Type()}
+		env.vars[p.Name()+"0"] = CVal{T: fr.params[i], Ty: p.Type()}
 	}
 	// source-level variables visible at the header through DebugRefs in dominating blocks
 	for _, b := range fr.fn.Blocks {
@@ -603,4 +655,82 @@ func (fr *Frame) loopDecreases(lc *loopCtx, st *State, over map[*ssa.Phi]*Term) 
 		}
 	}
 	return nil
+}
+
+// unescapedLocals: cells of address-taken locals of the current activation
+// that cannot be reached by a callee: their address is only ever used for
+// direct field/element access, loads and stores in this function, and is not
+// among the call's arguments.
+func (fr *Frame) unescapedLocals(args []*Term) []Loc {
+	var out []Loc
+	if fr.fn == nil {
+		return nil
+	}
+	for _, b := range fr.fn.Blocks {
+		for _, insn := range b.Instrs {
+			a, ok := insn.(*ssa.Alloc)
+			if !ok {
+				continue
+			}
+			ref, ok := fr.vals[a]
+			if !ok {
+				continue
+			}
+			if allocEscapes(a) {
+				continue
+			}
+			isArg := false
+			for _, x := range args {
+				if x == ref {
+					isArg = true
+				}
+			}
+			if isArg {
+				continue
+			}
+			expandCells(ref, a.Type().Underlying().(*types.Pointer).Elem(), &out)
+		}
+	}
+	return out
+}
+
+var escapeMemo = map[*ssa.Alloc]bool{}
+
+func allocEscapes(a *ssa.Alloc) bool {
+	if v, ok := escapeMemo[a]; ok {
+		return v
+	}
+	esc := false
+	var visit func(v ssa.Value)
+	seen := map[ssa.Value]bool{}
+	visit = func(v ssa.Value) {
+		if seen[v] || esc {
+			return
+		}
+		seen[v] = true
+		refs := v.Referrers()
+		if refs == nil {
+			return
+		}
+		for _, r := range *refs {
+			switch x := r.(type) {
+			case *ssa.FieldAddr:
+				visit(x)
+			case *ssa.IndexAddr:
+				visit(x)
+			case *ssa.UnOp:
+				// load: the loaded value is not the address
+			case *ssa.Store:
+				if x.Val == v {
+					esc = true
+				}
+			case *ssa.DebugRef:
+			default:
+				esc = true
+			}
+		}
+	}
+	visit(a)
+	escapeMemo[a] = esc
+	return esc
 }
